@@ -33,9 +33,93 @@ def grid_tokens(case):
                                   range(len(case["ref_lens_opts"]))))
 
 
-def _lt(x):
+def _lt(x, dtype=None):
     import torch
-    return None if x is None else torch.tensor(x, dtype=torch.long)
+    return None if x is None else torch.tensor(x, dtype=getattr(torch, dtype or "int64"))
+
+
+# ---- values the documentation declares irrelevant, or only looks at through a predicate -------------
+# 'ref': the token id ("ignored"), a missing boundary is ANY negative number; 'ali': only equality of
+# neighbouring labels matters; everything at or beyond in_lens / ref_lens is padding; 'fixed' never looks at
+# the feature values, their dtype or the trailing dimensions; other_lens is only used by 'ref'; lengths are
+# integer tensors. One profile per case: how far out these free integers are and the integer dtypes of
+# the tensors handed over (int32 only when every value fits).
+MAGS = ["small", "small", "i32", "i64"]
+FAR = 2 ** 40          # known boundaries / lengths stay below 2**40: the code adds lobe_size to them (no wrap)
+
+
+def draw_profile(rng):
+    mag = rng.choice(MAGS)
+    return {"mag": mag,
+            "dtype": "int64" if mag == "i64" else rng.choice(["int64", "int64", "int32"]),
+            "lens_dtype": rng.choice(["int64", "int64", "int32"])}
+
+
+def _magnitude(rng, mag):
+    if mag == "small" or rng.random() < 0.4:
+        return rng.randint(0, 9)
+    if mag == "i32":
+        return rng.choice([rng.randint(10, 2 ** 31 - 2), 2 ** 31 - 1])
+    return rng.choice([rng.randint(2 ** 31, 2 ** 62), 2 ** 63 - 2])   # -v - 2 is still an int64
+
+
+def free_int(rng, mag):
+    """An integer of either sign (0 included) of the profile's magnitude class."""
+    v = _magnitude(rng, mag)
+    return v if rng.random() < 0.5 else -v - 1
+
+
+def neg_int(rng, mag):
+    """A missing boundary: -1 half of the time, otherwise any other negative number."""
+    return -1 if rng.random() < 0.5 else -_magnitude(rng, mag) - 2
+
+
+def distinct_ints(rng, mag, k):
+    out = []
+    while len(out) < k:
+        v = free_int(rng, mag)
+        if v not in out:
+            out.append(v)
+    return out
+
+
+def miss(rng, mag, b):
+    """Boundary symbol -> value: a negative symbol stands for 'missing' and is instantiated freely."""
+    return neg_int(rng, mag) if b < 0 else b
+
+
+def tok_of(rng, mag, s, e):
+    return [free_int(rng, mag), miss(rng, mag, s), miss(rng, mag, e)]
+
+
+def relabel(rng, mag, rows, labels):
+    """Rename the labels of alignment rows by an injective map into integers of any sign."""
+    m = dict(zip(labels, distinct_ints(rng, mag, len(labels))))
+    return [[m[x] for x in r] for r in rows]
+
+
+FEAT_DTYPES = ["float32", "float32", "float64", "float16", "int64", "int32", "uint8", "bool"]
+FEAT_FILLS = ["zeros", "nan", "neg", "inf", "count"]
+FEAT_TRAILS = [[], [1], [2], [3], [0], [2, 2]]
+
+
+def draw_feat(rng):
+    return {"dtype": rng.choice(FEAT_DTYPES), "fill": rng.choice(FEAT_FILLS), "trail": rng.choice(FEAT_TRAILS)}
+
+
+def build_feats(N, T, feat):
+    import torch
+    dt = getattr(torch, feat["dtype"])
+    shape = [N, T] + list(feat["trail"])
+    fill = feat["fill"]
+    if fill == "count":
+        n = 1
+        for d in shape:
+            n *= d
+        return (torch.arange(n) % 100).reshape(shape).to(dt)
+    if not dt.is_floating_point:
+        return torch.full(shape, {"zeros": 0, "neg": -3}.get(fill, 1), dtype=torch.int64).to(dt)
+    return torch.full(shape, {"zeros": 0.0, "nan": float("nan"), "neg": -1e4, "inf": float("inf")}[fill], dtype=dt)
 
 
 LAYOUTS = ["contiguous", "expanded", "strided"]
@@ -57,7 +141,7 @@ def lay_out(x, layout):
         if x.shape[0] > 1 and bool((x == x[:1]).all()):
             return x[:1].expand(*x.shape)
         layout = "strided"
-    big = torch.full([2 * d for d in x.shape], -77, dtype=x.dtype)
+    big = torch.full([2 * d for d in x.shape], -77, dtype=torch.int64).to(x.dtype)   # junk between the elements
     view = big[tuple(slice(None, None, 2) for _ in x.shape)]
     view.copy_(x)
     return view
@@ -67,12 +151,13 @@ def build_input(case):
     import torch
     N, T = case["N"], case["T"]
     pol = case["policy"]
+    dt = getattr(torch, case.get("dtype", "int64"))
     if pol == "fixed":
-        x = torch.zeros((N, T, case.get("F", 1)))
+        x = build_feats(N, T, case.get("feat") or {"dtype": "float32", "fill": "zeros", "trail": [case.get("F", 1)]})
     elif pol == "ali":
-        x = torch.tensor(case["rows"], dtype=torch.long).reshape(N, T)
+        x = torch.tensor(case["rows"], dtype=dt).reshape(N, T)
     else:
-        x = torch.tensor(case["rows"], dtype=torch.long).reshape(N, T, 3)
+        x = torch.tensor(case["rows"], dtype=dt).reshape(N, T, 3)
     return lay_out(x, case.get("layout"))
 
 
@@ -175,7 +260,33 @@ class C10(PropertyCheck):
                 # memory layout of the arguments are drawn per case
                 c["via"] = rng.choice(VIAS)
                 c["layout"] = rng.choice(["contiguous", "contiguous", "contiguous", "expanded", "expanded", "strided"])
+                self.fit_dtypes(c)
             yield c
+
+    @staticmethod
+    def fit_dtypes(c):
+        """int32 tensors only when every value fits and no sum the code forms (boundary +- lobe_size, boundary
+        + slice start) can wrap: token ids / labels anywhere in int32, known boundaries and slice bounds below
+        2**30. (The generators draw dtype and magnitude together; shrunk and hand-written cases pass here too.)"""
+        def ints(x):
+            if isinstance(x, (list, tuple)):
+                for y in x:
+                    yield from ints(y)
+            elif isinstance(x, int) and not isinstance(x, bool):
+                yield x
+        lim = 2 ** 31
+        if c.get("dtype") == "int32":
+            if c["kind"] == "slice" and c.get("policy") == "ali":
+                ok = all(-lim <= v < lim for v in ints(c["rows"]))
+            else:
+                toks = [t for row in c.get("rows", c.get("refs", [])) for t in row]
+                ok = all(-lim <= t[0] < lim and all(-lim <= b < lim // 2 for b in t[1:]) for t in toks) and \
+                    all(-lim // 2 <= v < lim // 2 for v in ints(c.get("slices_opts", [])))
+            if not ok:
+                c["dtype"] = "int64"
+        lens = list(ints([list(o.values()) for o in c.get("lens_opts", [])])) + list(ints(c.get("ref_lens_opts", [])))
+        if c.get("lens_dtype") == "int32" and any(not -lim // 2 <= v < lim // 2 for v in lens):
+            c["lens_dtype"] = "int64"
 
     def cases_raw(self, rng, tier):
         big = tier != "quick"
@@ -190,25 +301,47 @@ class C10(PropertyCheck):
         if big:   # more directory-level runs, everything drawn at random
             yield from c10_dir.gen_cases(rng, 400 if tier == "search" else 160)
 
+    def unused_other(self, rng, pf, N, opts):
+        """'fixed' and 'ali' never use other_lens: hand over arbitrary integers in some of the options."""
+        for o in opts:
+            if o.get("other_lens") is None and rng.random() < 0.3:
+                o["other_lens"] = [free_int(rng, pf["mag"]) for _ in range(N)]
+        return opts
+
     def cases_fixed(self, rng, big):
         maxT = 12 if big else 7
         lobes = list(range(0, 6 if big else 4))
         for T in range(0, maxT + 1):
             for lobe in lobes:
+                pf = draw_profile(rng)
                 opts = [{"in_lens": None, "other_lens": None}] + [{"in_lens": [l], "other_lens": None}
                                                                   for l in range(T + 1)]
                 yield {"kind": "slice", "policy": "fixed", "N": 1, "T": T, "lobes": [lobe], "wts": WTS,
-                       "valids": [True, False], "lens_opts": opts}
-            # batches: every length at once, and random length vectors, through the module
+                       "valids": [True, False], "lens_opts": self.unused_other(rng, pf, 1, opts),
+                       "feat": draw_feat(rng), "lens_dtype": pf["lens_dtype"]}
+            # batches: every length at once, and random length vectors
+            pf = draw_profile(rng)
             opts = [{"in_lens": None, "other_lens": None}, {"in_lens": list(range(T + 1)), "other_lens": None},
                     {"in_lens": list(range(T, -1, -1)), "other_lens": [0] * (T + 1)}]
-            yield {"kind": "slice", "policy": "fixed", "N": T + 1, "T": T, "F": 2, "lobes": lobes, "wts": WTS,
-                   "valids": [True, False], "lens_opts": opts, "via": "module"}
+            yield {"kind": "slice", "policy": "fixed", "N": T + 1, "T": T, "lobes": lobes, "wts": WTS,
+                   "valids": [True, False], "lens_opts": self.unused_other(rng, pf, T + 1, opts),
+                   "feat": draw_feat(rng), "lens_dtype": pf["lens_dtype"]}
             for N in (2, 3):
+                pf = draw_profile(rng)
                 opts = [{"in_lens": [rng.randint(0, T) for _ in range(N)], "other_lens": None} for _ in range(3)]
                 opts.append({"in_lens": None, "other_lens": None})
                 yield {"kind": "slice", "policy": "fixed", "N": N, "T": T, "lobes": lobes, "wts": WTS,
-                       "valids": [True, False], "lens_opts": opts}
+                       "valids": [True, False], "lens_opts": self.unused_other(rng, pf, N, opts),
+                       "feat": draw_feat(rng), "lens_dtype": pf["lens_dtype"]}
+
+    def ali_case(self, rng, N, T, rows, labels, lobes, opts):
+        """An alignment case: the enumerated / drawn label structure is renamed by an injective map into
+        integers of either sign and of the profile's magnitude (only equality of neighbours is specified to
+        matter), other_lens (unused by 'ali') is arbitrary, lengths and data are int32 or int64."""
+        pf = draw_profile(rng)
+        return {"kind": "slice", "policy": "ali", "N": N, "T": T, "rows": relabel(rng, pf["mag"], rows, labels),
+                "lobes": lobes, "wts": WTS, "valids": [True, False],
+                "lens_opts": self.unused_other(rng, pf, N, opts), "dtype": pf["dtype"], "lens_dtype": pf["lens_dtype"]}
 
     def cases_ali(self, rng, big):
         maxT = 8 if big else 7
@@ -222,27 +355,21 @@ class C10(PropertyCheck):
                 # alone (N = 1, the way the command line calls it), every length and omitted
                 opts = [{"in_lens": None, "other_lens": None}] + [{"in_lens": [l], "other_lens": None}
                                                                   for l in range(T + 1)]
-                if T <= (7 if big else 5):
-                    yield {"kind": "slice", "policy": "ali", "N": 1, "T": T, "rows": [row], "lobes": lobes,
-                           "wts": WTS, "valids": [True, False], "lens_opts": opts}
-                else:
-                    yield {"kind": "slice", "policy": "ali", "N": 1, "T": T, "rows": [row], "lobes": lobes,
-                           "wts": WTS, "valids": [True, False], "lens_opts": opts[:2] + [rng.choice(opts[2:])]}
+                if T > (7 if big else 5):
+                    opts = opts[:2] + [rng.choice(opts[2:])]
+                yield self.ali_case(rng, 1, T, [row], [0, 1], lobes, opts)
                 # as a batch: the row replicated with every length (index arithmetic across elements)
                 ls = list(range(T + 1))
                 rng.shuffle(ls)
-                yield {"kind": "slice", "policy": "ali", "N": T + 1, "T": T, "rows": [row] * (T + 1),
-                       "lobes": lobes, "wts": WTS, "valids": [True, False],
-                       "lens_opts": [{"in_lens": ls, "other_lens": None}, {"in_lens": None, "other_lens": None}],
-                       "via": "module"}
+                yield self.ali_case(rng, T + 1, T, [row] * (T + 1), [0, 1], lobes,
+                                    [{"in_lens": ls, "other_lens": None}, {"in_lens": None, "other_lens": None}])
         # pairs of rows, exhaustive for short rows
         for T in range(1, 4 if not big else 5):
             rows = [[0] + list(b) for b in itertools.product([0, 1], repeat=T - 1)]
             for r1, r2 in itertools.product(rows, rows):
                 opts = [{"in_lens": None, "other_lens": None}] + [
                     {"in_lens": [a, b], "other_lens": None} for a in range(T + 1) for b in range(T + 1)]
-                yield {"kind": "slice", "policy": "ali", "N": 2, "T": T, "rows": [r1, r2], "lobes": lobes,
-                       "wts": WTS, "valids": [True, False], "lens_opts": opts}
+                yield self.ali_case(rng, 2, T, [r1, r2], [0, 1], lobes, opts)
         # random batches over 3 labels
         for _ in range(600 if big else 80):
             T = rng.randint(1, 12 if big else 8)
@@ -254,17 +381,24 @@ class C10(PropertyCheck):
                         r[t] = r[t - 1]
             opts = [{"in_lens": None, "other_lens": None}] + [
                 {"in_lens": [rng.randint(0, T) for _ in range(N)], "other_lens": None} for _ in range(3)]
-            yield {"kind": "slice", "policy": "ali", "N": N, "T": T, "rows": rows, "lobes": lobes, "wts": WTS,
-                   "valids": [True, False], "lens_opts": opts, "via": rng.choice(["module", "functional"])}
+            yield self.ali_case(rng, N, T, rows, [0, 1, 5], lobes, opts)
 
-    def ref_opts(self, rng, R, full):
+    def ref_opts(self, rng, R, full, mag="small"):
         ils = [None] + [[l] for l in range(R + 1)]
-        ols = [None] + [[o] for o in range(0, 6)]
+        # other_lens: any integer (a frame count in the useful range, but also negative / far out)
+        ols = [None] + [[o] for o in range(0, 6)] + [[-1], [-_magnitude(rng, mag) - 2], [min(_magnitude(rng, mag), FAR) + 6]]
         if not full:
             ols = [None] + rng.sample(ols[1:], 2)
         return [{"in_lens": a, "other_lens": b} for a in ils for b in ols]
 
+    def ref_case(self, rng, pf, N, T, rows, lobes, opts):
+        return {"kind": "slice", "policy": "ref", "N": N, "T": T, "rows": rows, "lobes": lobes, "wts": WTS,
+                "valids": [True, False], "lens_opts": opts, "dtype": pf["dtype"], "lens_dtype": pf["lens_dtype"]}
+
     def cases_ref(self, rng, big):
+        """Segment lists are enumerated over boundary SYMBOLS -1 (missing), 0, 1, ...; per case a missing
+        boundary is instantiated by any negative number and the token id (documented as ignored) by an
+        integer of either sign, both of the case's magnitude class."""
         lobes = list(range(0, 4))
         yield {"kind": "slice", "policy": "ref", "N": 1, "T": 0, "rows": [[]], "lobes": lobes, "wts": WTS,
                "valids": [True, False], "lens_opts": [{"in_lens": None, "other_lens": None},
@@ -273,70 +407,88 @@ class C10(PropertyCheck):
         segs = [(s, e) for s in rng_b for e in rng_b]
         segs_small = [(s, e) for s in range(-1, 3) for e in range(-1, 3)]
         for sg in segs:
-            row = [[7, sg[0], sg[1]]]
-            yield {"kind": "slice", "policy": "ref", "N": 1, "T": 1, "rows": [row], "lobes": lobes, "wts": WTS,
-                   "valids": [True, False], "lens_opts": self.ref_opts(rng, 1, True)}
+            for sign in (1, -1):     # every one-token list with a non-negative and with a negative token id
+                pf = draw_profile(rng)
+                tk = tok_of(rng, pf["mag"], *sg)
+                if (tk[0] >= 0) != (sign > 0):
+                    tk[0] = -tk[0] - 1
+                yield self.ref_case(rng, pf, 1, 1, [[tk]], lobes, self.ref_opts(rng, 1, True, pf["mag"]))
         two = segs if big else segs_small
         for a, b in itertools.product(two, two):
-            row = [[1, a[0], a[1]], [2, b[0], b[1]]]
+            pf = draw_profile(rng)
+            row = [tok_of(rng, pf["mag"], *a), tok_of(rng, pf["mag"], *b)]
             ll = lobes if big else sorted(rng.sample(lobes, 2))
-            yield {"kind": "slice", "policy": "ref", "N": 1, "T": 2, "rows": [row], "lobes": ll, "wts": WTS,
-                   "valids": [True, False], "lens_opts": self.ref_opts(rng, 2, big)}
+            yield self.ref_case(rng, pf, 1, 2, [row], ll, self.ref_opts(rng, 2, big, pf["mag"]))
         if big:
             three = list(itertools.product(segs_small, repeat=3))
         else:
             three = [tuple(rng.choice(segs) for _ in range(3)) for _ in range(150)]
         for tr in three:
-            row = [[i, s, e] for i, (s, e) in enumerate(tr)]
+            pf = draw_profile(rng)
+            row = [tok_of(rng, pf["mag"], s, e) for s, e in tr]
             ll = [rng.choice(lobes)] if big else sorted(rng.sample(lobes, 2))
-            opts = self.ref_opts(rng, 3, False)
-            yield {"kind": "slice", "policy": "ref", "N": 1, "T": 3, "rows": [row], "lobes": ll, "wts": WTS,
-                   "valids": [True, False], "lens_opts": rng.sample(opts, min(len(opts), 6))}
-        # batches with ragged in_lens / other_lens, through the module
+            opts = self.ref_opts(rng, 3, False, pf["mag"])
+            yield self.ref_case(rng, pf, 1, 3, [row], ll, rng.sample(opts, min(len(opts), 6)))
+        # batches with ragged in_lens / other_lens; known boundaries also far from 0
         for _ in range(500 if big else 80):
+            pf = draw_profile(rng)
             T = rng.randint(1, 4)
             N = rng.randint(2, 4)
-            rows = [[[rng.randint(0, 9)] + list(rng.choice(segs + [(0, 5), (2, 6), (4, 4)])) for _ in range(T)]
-                    for _ in range(N)]
+            far = min(_magnitude(rng, pf["mag"]), FAR)
+            pool = segs + [(0, 5), (2, 6), (4, 4), (far, far + 2), (3, far), (far + 1, far)]
+            rows = [[tok_of(rng, pf["mag"], *rng.choice(pool)) for _ in range(T)] for _ in range(N)]
+
+            def olen():
+                return rng.choice([rng.randint(0, 7), rng.randint(0, 7), free_int(rng, "small"), far + 1])
             opts = [{"in_lens": None, "other_lens": None},
                     {"in_lens": [rng.randint(0, T) for _ in range(N)], "other_lens": None},
-                    {"in_lens": None, "other_lens": [rng.randint(0, 7) for _ in range(N)]},
+                    {"in_lens": None, "other_lens": [olen() for _ in range(N)]},
                     {"in_lens": [rng.randint(0, T) for _ in range(N)],
-                     "other_lens": [rng.randint(0, 7) for _ in range(N)]}]
-            yield {"kind": "slice", "policy": "ref", "N": N, "T": T, "rows": rows, "lobes": lobes, "wts": WTS,
-                   "valids": [True, False], "lens_opts": opts, "via": "module"}
+                     "other_lens": [olen() for _ in range(N)]}]
+            yield self.ref_case(rng, pf, N, T, rows, lobes, opts)
 
     def cases_tokens(self, rng, big):
+        """As for 'ref': boundary symbol -1 = missing = any negative number; token ids of either sign."""
         rb = range(-1, 4)
         segs = [(s, e) for s in rb for e in rb]
         slices = [[a, b] for a in range(-1, 5) for b in range(-1, 5)]
 
-        def mk(rowsegs, via="functional"):
-            row = [[i + 1, s, e] for i, (s, e) in enumerate(rowsegs)]
+        def mk(rowsegs):
+            pf = draw_profile(rng)
+            row = [tok_of(rng, pf["mag"], s, e) for s, e in rowsegs]
             R = len(row)
             N = len(slices)
             lens = [None, [R] * N] + ([[rng.randint(0, R) for _ in range(N)]] if R else [])
             return {"kind": "tokens", "refs": [row] * N, "partials": [True, False], "retains": [True, False],
-                    "slices_opts": [slices], "ref_lens_opts": lens, "via": via}
+                    "slices_opts": [slices], "ref_lens_opts": lens, "dtype": pf["dtype"],
+                    "lens_dtype": pf["lens_dtype"]}
 
         yield mk([])
         for a in segs:
             yield mk([a])
         for a, b in itertools.product(segs, segs):
-            yield mk([a, b], via="module" if (a[0] + b[0]) % 2 else "functional")
+            yield mk([a, b])
         n3 = 3000 if big else 150
         for _ in range(n3):
             yield mk([rng.choice(segs) for _ in range(3)])
-        # heterogeneous batches (rows differ, so the flattened select/scatter matters)
+        # heterogeneous batches (rows differ, so the flattened select/scatter matters); boundaries and slices
+        # also far from 0
         for _ in range(800 if big else 100):
+            pf = draw_profile(rng)
             N = rng.randint(1, 5)
             R = rng.randint(1, 4)
-            refs = [[[rng.randint(-1, 9)] + list(rng.choice(segs + [(2, 6), (5, 7), (0, 8)])) for _ in range(R)]
-                    for _ in range(N)]
-            sl = [[[rng.randint(-2, 6), rng.randint(-2, 8)] for _ in range(N)] for _ in range(3)]
+            far = min(_magnitude(rng, pf["mag"]), FAR)
+            pool = segs + [(2, 6), (5, 7), (0, 8), (far, far + 2), (3, far), (far + 1, far)]
+            refs = [[tok_of(rng, pf["mag"], *rng.choice(pool)) for _ in range(R)] for _ in range(N)]
+
+            def sl():
+                if rng.random() < 0.2:
+                    return [rng.choice([-far - 1, 0, 2, far - 1, far]), rng.choice([-far, 3, far, far + 2, far + 3])]
+                return [rng.randint(-2, 6), rng.randint(-2, 8)]
+            sls = [[sl() for _ in range(N)] for _ in range(3)]
             lens = [None, [rng.randint(0, R) for _ in range(N)]]
             yield {"kind": "tokens", "refs": refs, "partials": [True, False], "retains": [True, False],
-                   "slices_opts": sl, "ref_lens_opts": lens, "via": rng.choice(["module", "functional"])}
+                   "slices_opts": sls, "ref_lens_opts": lens, "dtype": pf["dtype"], "lens_dtype": pf["lens_dtype"]}
 
     def cases_malformed(self, rng, big):
         base = {"kind": "slice", "N": 2, "T": 3, "lobes": [1], "wts": ["symmetric"], "valids": [True, False]}
@@ -352,6 +504,9 @@ class C10(PropertyCheck):
     # ------------------------------------------------------------------ implementation
     def run_impl(self, case):
         kind = case["kind"]
+        if kind in ("slice", "tokens"):
+            case = dict(case)
+            self.fit_dtypes(case)
         if kind == "slice":
             return self.impl_slice(case)
         if kind == "tokens":
@@ -366,10 +521,15 @@ class C10(PropertyCheck):
         for lobe, wt, vo, oi in grid_slice(case):
             opt = case["lens_opts"][oi]
             try:
-                sl, src = call_slicer(case, inp, lay_out(_lt(opt.get("in_lens")), case.get("layout")),
-                                      lay_out(_lt(opt.get("other_lens")), case.get("layout")), wt, vo, lobe)
+                ld = case.get("lens_dtype")
+                sl, src = call_slicer(case, inp, lay_out(_lt(opt.get("in_lens"), ld), case.get("layout")),
+                                      lay_out(_lt(opt.get("other_lens"), ld), case.get("layout")), wt, vo, lobe)
+                # "a long tensor"; policy 'ref' copies the boundaries out of `input`, so for an int32 `input`
+                # (outside the documented long refs tensor) the boundaries come back in that type
+                sl_dtypes = ("torch.int64", "torch." + case.get("dtype", "int64")) if case["policy"] == "ref" \
+                    else ("torch.int64",)
                 ok = (sl.ndim == 2 and sl.shape[1] == 2 and src.ndim == 1 and sl.shape[0] == src.shape[0]
-                      and str(sl.dtype) == "torch.int64" and str(src.dtype) == "torch.int64")
+                      and str(sl.dtype) in sl_dtypes and str(src.dtype) == "torch.int64")
                 if not ok:
                     res.append({"error": "BadShape", "message": f"{tuple(sl.shape)} {tuple(src.shape)} {sl.dtype}"})
                 else:
@@ -383,18 +543,19 @@ class C10(PropertyCheck):
         N = len(case["refs"])
         R = len(case["refs"][0]) if N else 0
         layout = case.get("layout")
-        refs = lay_out(torch.tensor(case["refs"], dtype=torch.long).reshape(N, R, 3), layout)
+        dt, ld = getattr(torch, case.get("dtype", "int64")), case.get("lens_dtype")
+        refs = lay_out(torch.tensor(case["refs"], dtype=dt).reshape(N, R, 3), layout)
         before = refs.tolist()
         res = []
         for p, r, si, li in grid_tokens(case):
-            sl = lay_out(torch.tensor(case["slices_opts"][si], dtype=torch.long).reshape(N, 2),
+            sl = lay_out(torch.tensor(case["slices_opts"][si], dtype=dt).reshape(N, 2),
                          "strided" if layout == "strided" else None)
-            rl = lay_out(_lt(case["ref_lens_opts"][li]), layout)
+            rl = lay_out(_lt(case["ref_lens_opts"][li], ld), layout)
             try:
                 ch, cl = call_chunker(case, refs, sl, rl, p, r)
                 if refs.tolist() != before:
                     res.append({"error": "InputModified", "message": "refs changed by the call"})
-                    refs = lay_out(torch.tensor(case["refs"], dtype=torch.long).reshape(N, R, 3), layout)
+                    refs = lay_out(torch.tensor(case["refs"], dtype=dt).reshape(N, R, 3), layout)
                     continue
                 if ch.ndim != 3 or ch.shape[0] != N or ch.shape[2] != 3 or tuple(cl.shape) != (N,) or \
                         any(int(c) > ch.shape[1] or int(c) < 0 for c in cl):
@@ -605,6 +766,7 @@ class C10(PropertyCheck):
             t.append(f"slice:T={case['T']}")
             t.append("via:" + case.get("via", "functional"))
             t.append("layout:" + case.get("layout", "contiguous"))
+            t += self.free_tags(case)
             if any(o.get("in_lens") is None for o in case["lens_opts"]):
                 t.append(f"slice:{case['policy']}:in_lens_omitted")
             if any(o.get("other_lens") is None for o in case["lens_opts"]) and case["policy"] == "ref":
@@ -618,7 +780,41 @@ class C10(PropertyCheck):
             t.append("tokens")
             t.append("via:" + case.get("via", "functional"))
             t.append("layout:" + case.get("layout", "contiguous"))
+            t += self.free_tags(case)
             t.append(f"tokens:R={len(case['refs'][0]) if case['refs'] else 0}")
+        return t
+
+    @staticmethod
+    def free_tags(case):
+        """Which of the documented-as-irrelevant degrees of freedom the case exercises."""
+        k = "tokens" if case["kind"] == "tokens" else case["policy"]
+        t = [f"dtype:{k}:data={case.get('dtype', 'int64')}", f"dtype:{k}:lens={case.get('lens_dtype', 'int64')}"]
+        big = 2 ** 31
+        if k == "fixed":
+            f = case.get("feat")
+            if f:
+                t += [f"fixed:feat:dtype={f['dtype']}", f"fixed:feat:fill={f['fill']}", f"fixed:feat:trail={f['trail']}"]
+        elif k == "ali":
+            vals = {x for r in case["rows"] for x in r}
+            if any(v < 0 for v in vals):
+                t.append("ali:label<0")
+            if any(not -big <= v < big for v in vals):
+                t.append("ali:label:beyond_int32")
+        else:
+            toks = [tk for row in case.get("rows", case.get("refs", [])) for tk in row]
+            known = [tk for tk in toks if tk[1] >= 0 and tk[2] >= 0]
+            if any(tk[0] < 0 for tk in known):
+                t.append(f"{k}:token_id<0:segment_known")
+            if any(not -big <= tk[0] < big for tk in toks):
+                t.append(f"{k}:token_id:beyond_int32")
+            if any(b < -1 for tk in toks for b in tk[1:]):
+                t.append(f"{k}:missing_boundary<-1")
+            if any(b >= big for tk in toks for b in tk[1:]):
+                t.append(f"{k}:boundary:beyond_int32")
+        if k in ("fixed", "ali") and any(o.get("other_lens") is not None for o in case.get("lens_opts", [])):
+            t.append(f"{k}:other_lens_given(unused)")
+        if k == "ref" and any(v < 0 for o in case["lens_opts"] for v in (o.get("other_lens") or [])):
+            t.append("ref:other_lens<0")
         return t
 
     def has_unknown_failure(self, case):
@@ -646,6 +842,30 @@ class C10(PropertyCheck):
             yield dict(case, layout="contiguous")
         if case.get("via", "functional") != "functional":
             yield dict(case, via="functional")
+        for k in ("dtype", "lens_dtype"):
+            if case.get(k, "int64") != "int64":
+                yield dict(case, **{k: "int64"})
+        if case.get("feat") and case["feat"] != {"dtype": "float32", "fill": "zeros", "trail": [1]}:
+            yield dict(case, feat={"dtype": "float32", "fill": "zeros", "trail": [1]})
+        # the free integers: token ids -> position, missing boundaries -> -1, labels -> rank
+        key = "refs" if case["kind"] == "tokens" else "rows"
+        if case["kind"] == "tokens" or case.get("policy") == "ref":
+            plain = [[[i + 1, max(tk[1], -1), max(tk[2], -1)] for i, tk in enumerate(row)] for row in case[key]]
+            if plain != case[key]:
+                yield dict(case, **{key: [[[tk[0], p[1], p[2]] for tk, p in zip(row, prow)]
+                                          for row, prow in zip(case[key], plain)]})
+                yield dict(case, **{key: plain})
+        elif case.get("policy") == "ali":
+            rank = {}
+            for r in case["rows"]:
+                for x in r:
+                    rank.setdefault(x, len(rank))
+            plain = [[rank[x] for x in r] for r in case["rows"]]
+            if plain != case["rows"]:
+                yield dict(case, rows=plain)
+        if case["kind"] == "slice" and case.get("policy") in ("fixed", "ali") and \
+                any(o.get("other_lens") is not None for o in case["lens_opts"]):
+            yield dict(case, lens_opts=[dict(o, other_lens=None) for o in case["lens_opts"]])
 
     def shrink_raw(self, case):
         if case["kind"] == "dir":
